@@ -328,6 +328,7 @@ def shortest_paths_to(g, pred, limit=12):
 
 def run(ctx):
     thorough = ctx.tier == "thorough"
+    par.start()      # fork the replay workers while this process is still small
     import logging
     logging.getLogger("pymoca").setLevel(logging.CRITICAL)
     jobs, jobinfo = [], []
